@@ -12,7 +12,8 @@
               connections are skipped by process_connections, the bytes wait in the socket
       b_dead  connections whose client went away while Blocked (the server does not
               notice: it never reads them)
-      b_crashed  Server::run returned: wake_client propagates a WRONGTYPE from lpop/rpop
+      b_crashed  Server::run returned (nothing in the model sets it since repair e1d4020: a wake-up
+                 on a key of another type used to propagate WRONGTYPE out of the loop)
 
     Events: a batch of frames read from one connection ([serve_batch], with BLPOP/BRPOP
     and the notification after LPUSH/RPUSH - also inside EXEC), and the phases of one
@@ -64,9 +65,6 @@ Definition with_dead (b : blocking) (l : list Z) : blocking :=
 Definition emit (b : blocking) (c : Z) (f : frame) : blocking :=
   {| b_reg := b_reg b; b_wake := b_wake b; b_blk := b_blk b; b_out := (c, f) :: b_out b; b_in := b_in b;
      b_dead := b_dead b; b_crashed := b_crashed b |}.
-Definition crash (b : blocking) : blocking :=
-  {| b_reg := b_reg b; b_wake := b_wake b; b_blk := b_blk b; b_out := b_out b; b_in := b_in b;
-     b_dead := b_dead b; b_crashed := true |}.
 (** conn.state = Authenticated *)
 Definition unblock (b : blocking) (c : Z) : blocking := with_blk b (zremove c (b_blk b)).
 Definition set_blocked (b : blocking) (c : Z) (st : bstate) : blocking := with_blk b (zset_ c st (b_blk b)).
@@ -200,9 +198,11 @@ Definition h_bpop (left : bool) (now : Z) (s : server) (b : blocking) (c dbi : Z
           match fast_path left (get_db s dbi) keys with
           | (Some r, d') => (r, set_db s dbi d', b)
           | (None, d') =>
+              (* inside EXEC (connection id 0) a blocking pop does not block: nil at once (repair d076b83) *)
+              if c =? 0 then (FNullArray, set_db s dbi d', b) else
               let dl := option_map (fun ms => now + ms) tmo in
               let b1 := with_reg b (register (b_reg b) dbi c keys left dl) in
-              (* with_connection(conn_id, ..): nothing happens for the id 0 used inside EXEC *)
+              (* with_connection(conn_id, ..) *)
               let b2 := match zlookup c (s_conns s) with
                         | Some _ => set_blocked b1 c {| bl_db := dbi; bl_keys := keys; bl_dl := dl; bl_left := left |}
                         | None => b1
@@ -299,8 +299,7 @@ Definition wake_client (s : server) (b : blocking) (u : wakeup) : server * block
           (* nobody to take it: put it back at the end it came from *)
           (set_db s (u_db u) (snd (on_key d' (u_key u) (e_push (u_left u) [v]))), b)
       end
-  | (FError _, _) => (s, crash b)          (* the error leaves Server::run: the process ends *)
-  | (_, d') =>
+  | (_, d') =>        (* nothing there - or a key of another type: lpop(..).unwrap_or(None), repair e1d4020 *)
       let s' := set_db s (u_db u) d' in
       match zlookup (u_conn u) (b_blk b) with
       | Some st => (s', with_reg b (register (b_reg b) (u_db u) (u_conn u) (bl_keys st) (bl_left st) (bl_dl st)))
